@@ -39,6 +39,10 @@ def symbols_slices():
            ("frame_t::get_size", r"^uint32_t frame_t::get_size\(\) const"),
            ("frame_t::add_symbol", r"^symbol_t frame_t::add_symbol\(const string& name, type_t type, position_t position, void\* user\)"),
            ("frame_t::add(symbol_t)", r"^void frame_t::add\(symbol_t symbol\)"),
+           ("frame_t::add(frame_t)", r"^void frame_t::add\(frame_t frame\)"),
+           ("frame_t::move_to", r"^void frame_t::move_to\(frame_t frame\)"),
+           ("frame_t::begin", r"^frame_t::iterator frame_t::begin\(\)"),
+           ("frame_t::end", r"^frame_t::iterator frame_t::end\(\)"),
            ("frame_t::get_index_of(name)", r"^std::optional<uint32_t> frame_t::get_index_of\(const string& name\) const"),
            ("frame_t::resolve", r"^bool frame_t::resolve\(const string& name, symbol_t& symbol\) const"),
            ("frame_t::get_parent", r"^frame_t frame_t::get_parent\(\) const"),
@@ -57,6 +61,11 @@ def symbols_slices():
         sl.sub("L4:return T{...}", r"return frame_t\{([^{}]*)\};", r"return frame_t(\1);")
         sl.sub("L19:optional<uint32_t>", r"std::optional<uint32_t>", "std::verif_opt_u32")
         sl.sub("L9:throw->ghost flag", r"throw NoParentException\(\);", "{ verif_thrown = 1; return frame_t(); }")
+        sl.sub("glue:frame_t::iterator->symbol_t*", r"frame_t::iterator frame_t::(begin|end)\(\)", r"symbol_t* frame_t::\1()")
+        sl.sub("glue:std::begin/end(v)->v.begin()/end()", r"std::(begin|end)\(data->symbols\)", r"data->symbols.\1()")
+        sl.sub("L15:const auto x = size()", r"const auto offset = data->symbols\.size\(\);", "const size_t offset = data->symbols.size();")
+        X.lower_range_for_map(sl, "string", "int32_t")
+        X.lower_range_for(sl, "symbol_t")
         if "if (auto" in sl.text:
             X.lower_if_init(sl)
             sl.sub("L15:auto it", r"auto it = data->mapping\.find\(name\)", "std::verif_map_it it = data->mapping.find(name)", required=True)
@@ -107,6 +116,30 @@ def scope_slices(work):
     return slices + [fc, tf] + fl
 
 
+def stmt_scope_slices(work):
+    """Part 3: StatementBuilder::iteration_begin/end, block_begin/end, get_block + ExpressionBuilder::push_frame/popFrame."""
+    sb = X.Source("src/StatementBuilder.cpp")
+    eb = X.Source("src/ExpressionBuilder.cpp")
+    fl = [X.function(eb, "ExpressionBuilder::push_frame", r"^void ExpressionBuilder::push_frame\(frame_t frame\)"),
+          X.function(eb, "ExpressionBuilder::popFrame", r"^void ExpressionBuilder::popFrame\(\)"),
+          X.function(sb, "StatementBuilder::get_block", r"^BlockStatement& StatementBuilder::get_block\(\)"),
+          X.function(sb, "StatementBuilder::iteration_begin", r"^void StatementBuilder::iteration_begin\(const char\* name\)"),
+          X.function(sb, "StatementBuilder::iteration_end", r"^void StatementBuilder::iteration_end\(const char\* name\)"),
+          X.function(sb, "StatementBuilder::block_begin", r"^void StatementBuilder::block_begin\(\)"),
+          X.function(sb, "StatementBuilder::block_end", r"^void StatementBuilder::block_end\(\)")]
+    for sl in fl:
+        sl.sub("glue:the scope stack lives in the base class ExpressionBuilder", r"void ExpressionBuilder::(push_frame|popFrame)\(", r"void StatementBuilder::\1(")
+        sl.sub("glue:name spelling->name identity", r"const char\* name", "verif_name name")
+        sl.sub("L19:make_unique<T>(...)->new T(...)", r"std::make_unique<(\w+)>\(", r"new \1(")
+        sl.sub("L19:unique_ptr<T>->T*", r"std::unique_ptr<(\w+)>", r"\1*")
+        sl.sub("L23:std::move(x)->x", r"std::move\(([^()]*(?:\([^()]*\))?[^()]*)\)", r"\1")
+        sl.sub("L15:auto x = pop_stat()", r"auto statement = get_block\(\)\.pop_stat\(\);", "Statement* statement = get_block().pop_stat();")
+        sl.sub("L20:return c ? *a : *b -> if/else", r"return blocks\.empty\(\) \? \*currentFun->body : \*blocks\.back\(\);",
+               "if (blocks.empty()) return *currentFun->body; return *blocks.back();")
+    write(work, "stmt_scope_funcs.inc", "\n".join(s.text for s in fl) + "\n")
+    return fl
+
+
 def build(tier, work, builder):
     slices = symbols_slices()
     write(work, "symbols_funcs.inc", "namespace UTAP {\n" + "\n".join(s.text for s in slices).replace("using namespace UTAP;", "") + "\n}\n")
@@ -119,6 +152,8 @@ def build(tier, work, builder):
     J("c07_index_of", "h_c07_index_of", ["frame_t::get_index_of(const string&)", "frame_t::add_symbol"])
     J("c07_add_symbol", "h_c07_add_symbol", ["frame_t::add_symbol", "symbol_t::symbol_t", "frame_t::get_index_of(const string&)"])
     J("c07_resolve", "h_c07_resolve", ["frame_t::resolve (one frame; the parent's answer by contract)", "frame_t::get_parent", "frame_t::has_parent"])
+    J("c07_add_frame", "h_c07_add_frame", ["frame_t::add(frame_t)", "frame_t::add(symbol_t)", "frame_t::begin/end"])
+    J("c07_move_to", "h_c07_move_to", ["frame_t::move_to", "frame_t::add(symbol_t)"])
     J("c07_create", "h_c07_create", ["frame_t::create()", "frame_t::create(const frame_t&)", "frame_t::get_parent"])
     sc = scope_slices(work)
     slices = slices + sc
@@ -129,6 +164,13 @@ def build(tier, work, builder):
                           functions=[f"ExpressionBuilder::expr_{nm}_begin", f"ExpressionBuilder::expr_{nm}_end", "push_frame", "popFrame", "resolve"], bound_note="frame stack depth <= 4"))
     jobs.append(F.Job("c07_scope_dot_process_var", "h_c07_scope_dot_process_var", [sobj, shobj], timeout=300, unwind=10,
                       functions=["ExpressionBuilder::expr_dot (PROCESS_VAR branch)", "push_frame", "popFrame", "resolve", "expr_false"], bound_note="frame stack depth <= 4"))
+    st = stmt_scope_slices(work)
+    slices = slices + [s.info() if hasattr(s, "info") else s for s in []]
+    stobj = builder.cc(os.path.join(CDIR, "sb07.cpp"), includes=[work, os.path.join(X.REPO, "include")], cpp=True)
+    for nm, fns in (("iteration", ["StatementBuilder::iteration_begin", "StatementBuilder::iteration_end"]), ("block", ["StatementBuilder::block_begin", "StatementBuilder::block_end"])):
+        jobs.append(F.Job("c07_scope_" + nm, "h_c07_scope_" + nm, [stobj, shobj], timeout=300, unwind=10,
+                          functions=fns + ["StatementBuilder::get_block", "push_frame", "popFrame"], bound_note="frame stack depth <= 4, <= 1 open nested block"))
+    slices = slices + st
     return {
         "jobs": jobs, "slices": [s.info() for s in slices],
         "drops": ["names are identities (string comparison is identity comparison)", "reference counting of shared_ptr"],
